@@ -194,3 +194,44 @@ pub async fn settle() {
 pub fn runtime() -> tokio::runtime::Runtime {
     tokio::runtime::Builder::new_current_thread().enable_all().start_paused(true).rng_seed(tokio::runtime::RngSeed::from_bytes(b"verif")).build().unwrap()
 }
+
+/// A connected client whose incoming frames are drained continuously by its own task (a client that
+/// does not read would stall the relay's writes on the capacity-1 pipes and be cut by the relay's write time-out).
+pub struct DrainedClient {
+    pub received: Arc<Mutex<Vec<bytes::Bytes>>>,
+    pub closed: Arc<AtomicBool>,
+    tx: tokio::sync::mpsc::UnboundedSender<bytes::Bytes>,
+    _task: tokio::task::JoinHandle<()>,
+}
+
+impl DrainedClient {
+    pub fn new(mut ws: ClientWs) -> Self {
+        let received = Arc::new(Mutex::new(Vec::new()));
+        let closed = Arc::new(AtomicBool::new(false));
+        let (tx, mut rx) = tokio::sync::mpsc::unbounded_channel::<bytes::Bytes>();
+        let (r2, c2) = (received.clone(), closed.clone());
+        let task = tokio::spawn(async move {
+            loop {
+                tokio::select! {
+                    biased;
+                    f = ws.recv_frame() => match f {
+                        Some(Ok(b)) => r2.lock().unwrap().push(b),
+                        _ => { c2.store(true, SeqCst); break; }
+                    },
+                    out = rx.recv() => match out {
+                        Some(b) => { if ws.send_frame(b).await.is_err() { c2.store(true, SeqCst); break; } }
+                        None => break,
+                    },
+                }
+            }
+        });
+        DrainedClient { received, closed, tx, _task: task }
+    }
+    pub fn send(&self, b: bytes::Bytes) {
+        let _ = self.tx.send(b);
+    }
+    /// true iff a frame with this first byte (frame type) and payload suffix was received
+    pub fn got(&self, typ: u8, payload: &[u8]) -> bool {
+        self.received.lock().unwrap().iter().any(|b| b.first() == Some(&typ) && b[1..] == *payload)
+    }
+}
